@@ -29,12 +29,12 @@ func TestC25_MessageOrder(t *testing.T) {
 	r.Rule("message order: a raw TCP client connects to a real daemon (listening on a loopback port, chain of 8 blocks) and sends 1-4 framed messages drawn from {valid introduction, introduction with a foreign blockchain key / unsupported version / the node's own mirror, GETP, GIVP, PING, PONG, GETB, GIVB, ANNB, GETT, GIVT, ANNT, DISC}; oracle: a first message that is not an introduction, a disconnect or a peer list makes the node close the connection without answering the request; a refused introduction closes the connection; after a valid introduction (also when a peer list came first) a PING is answered with a PONG; non-trivial = the first message is not a valid introduction")
 	tm, err := getTemplate()
 	if err != nil {
-		t.Skipf("HARNESS-SETUP-FAILED node template: %v", err)
+		setupFailed(t, "node template: %v", err)
 	}
 	hx.Check(t, "C25", 60, 3000, func(t *rapid.T) {
 		n, err := startNodeOpt(tm, true)
 		if err != nil {
-			t.Skipf("HARNESS-SETUP-FAILED node start: %v", err)
+			setupFailed(t, "node start: %v", err)
 		}
 		defer n.stop()
 		var addr net.Addr
@@ -46,11 +46,11 @@ func TestC25_MessageOrder(t *testing.T) {
 			time.Sleep(time.Millisecond)
 		}
 		if addr == nil {
-			t.Skip("HARNESS-SETUP-FAILED daemon is not listening")
+			setupFailed(t, "daemon is not listening%v", "")
 		}
 		conn, err := net.DialTimeout("tcp", addr.String(), 5*time.Second)
 		if err != nil {
-			t.Skipf("HARNESS-SETUP-FAILED dial: %v", err)
+			setupFailed(t, "dial: %v", err)
 		}
 		defer conn.Close()
 		dcfg := n.d.DaemonConfig()
@@ -74,16 +74,18 @@ func TestC25_MessageOrder(t *testing.T) {
 			"INTR_old_version": func() gnet.Message { return intro("INTR_old_version") },
 			"INTR_self":        func() gnet.Message { return intro("INTR_self") },
 			"GETP":             func() gnet.Message { return &daemon.GetPeersMessage{} },
-			"GIVP":             func() gnet.Message { return &daemon.GivePeersMessage{Peers: []daemon.IPAddr{{IP: 0x01020304, Port: 6000}}} },
-			"PING":             func() gnet.Message { return &daemon.PingMessage{} },
-			"PONG":             func() gnet.Message { return &daemon.PongMessage{} },
-			"GETB":             func() gnet.Message { return &daemon.GetBlocksMessage{LastBlock: 0, RequestedBlocks: 5} },
-			"GIVB":             func() gnet.Message { return &daemon.GiveBlocksMessage{} },
-			"ANNB":             func() gnet.Message { return &daemon.AnnounceBlocksMessage{MaxBkSeq: 100} },
-			"GETT":             func() gnet.Message { return &daemon.GetTxnsMessage{Transactions: []cipher.SHA256{{1}}} },
-			"GIVT":             func() gnet.Message { return &daemon.GiveTxnsMessage{} },
-			"ANNT":             func() gnet.Message { return &daemon.AnnounceTxnsMessage{Transactions: []cipher.SHA256{{2}}} },
-			"DISC":             func() gnet.Message { return &daemon.DisconnectMessage{ReasonCode: 1} },
+			"GIVP": func() gnet.Message {
+				return &daemon.GivePeersMessage{Peers: []daemon.IPAddr{{IP: 0x01020304, Port: 6000}}}
+			},
+			"PING": func() gnet.Message { return &daemon.PingMessage{} },
+			"PONG": func() gnet.Message { return &daemon.PongMessage{} },
+			"GETB": func() gnet.Message { return &daemon.GetBlocksMessage{LastBlock: 0, RequestedBlocks: 5} },
+			"GIVB": func() gnet.Message { return &daemon.GiveBlocksMessage{} },
+			"ANNB": func() gnet.Message { return &daemon.AnnounceBlocksMessage{MaxBkSeq: 100} },
+			"GETT": func() gnet.Message { return &daemon.GetTxnsMessage{Transactions: []cipher.SHA256{{1}}} },
+			"GIVT": func() gnet.Message { return &daemon.GiveTxnsMessage{} },
+			"ANNT": func() gnet.Message { return &daemon.AnnounceTxnsMessage{Transactions: []cipher.SHA256{{2}}} },
+			"DISC": func() gnet.Message { return &daemon.DisconnectMessage{ReasonCode: 1} },
 		}
 		names := []string{"INTR", "INTR", "INTR_foreign_key", "INTR_old_version", "INTR_self", "GETP", "GIVP", "PING", "PONG", "GETB", "GIVB", "ANNB", "GETT", "GIVT", "ANNT", "DISC"}
 		// reader: collects the types of the frames the node sends and notices the close
